@@ -39,6 +39,7 @@ PRIOS_TEXT_OK = ['', '', '', '!important', '! important', '!IMPORTANT', '!/*c*/i
                  '!important ']
 PRIOS_TEXT_BAD = ['!foo', '!', '!important x']
 UNKNOWN_NAMES = ['foo', '-x-y', 'zoom', 'a1', '_u', 'x€y', 'g']
+ESC_NAMES = ['a\\\\g', 'x\\\\-y']      # escaped backslash before a non-hex character
 NAMES_BAD = ['', 'a b', '1a', '"x"', 'a:b', 'a;b', ' ', '/**/', '#a', 'a!']
 
 
@@ -74,6 +75,8 @@ def gen_decl_ops(rng, names):
     base = rng.sample(names, rng.choice([2, 3, 3])) + [rng.choice(UNKNOWN_NAMES)]
     if rng.random() < 0.5:
         base.append('color')
+    if rng.random() < 0.06:
+        base.append(rng.choice(ESC_NAMES))      # region of the known finding C10-escaped-backslash-name
 
     def nm(p_bad=0.04, p_pad=0.05):
         if rng.random() < p_bad:
@@ -409,6 +412,7 @@ class Spec:
         es = self.entries
         names = lastocc([e.nname for e in es])
         w = {'op': show_ops([op])[0]}
+        unstable = [e.nname for e in es if py_normalize(e.nname) != e.nname]
         if style.keys() != names:
             return self.fail('keys() enumerates the distinct normalised names, ordered by last occurrence',
                              dict(w, impl=style.keys(), spec=names))
@@ -421,6 +425,14 @@ class Spec:
                 return self.fail('item(i) indexes the distinct names', dict(w, i=i, impl=style.item(i), spec=want))
         allp = style.getProperties(all=True)
         it = list(style)
+        if unstable:
+            # region of C10-escaped-backslash-name: iteration / effective list / look-up by a listed name
+            if None in it or None in style.getProperties():
+                self.ctx.violate('iteration yields one property per distinct name',
+                                 {'ops': show_ops(self.done)}, {'names': names, 'iteration_has_None': True},
+                                 known='C10-escaped-backslash-name')
+            self.stats['known-region:escaped-backslash'] += 1
+            return
         if [p.name for p in it] != names:
             return self.fail('iteration yields one property per distinct name', dict(w, impl=[p.name for p in it]))
         effl = style.getProperties()
@@ -479,6 +491,8 @@ def gen_var_ops(rng):
         r = rng.random()
         if r < p_odd:
             return rng.choice([' x', 'x/**/', 'a b', '1k', '', '\\78 ', 'x '])
+        if r < p_odd + 0.02:
+            return rng.choice(ESC_NAMES)
         b = rng.choice(base)
         return b if rng.random() < 0.4 else respell(rng, b, allow_hex=False)
 
